@@ -14,6 +14,8 @@ import (
 	"strings"
 	"time"
 
+	"github.com/bytom/bytom/database"
+	dbm "github.com/bytom/bytom/database/leveldb"
 	"github.com/bytom/bytom/database/storage"
 	"github.com/bytom/bytom/event"
 	"github.com/bytom/bytom/protocol"
@@ -54,6 +56,25 @@ type memStore struct {
 	utxo     map[bc.Hash]*storage.UtxoEntry
 	failNext bool
 	calls    int64
+	// real: the node's own store (database.Store on a MemDB) holding the same confirmed outputs.  The
+	// pool's lookups go through it, so that the storage layer's helper the pool depends on
+	// (database.getTransactionsUtxo) is the code under observation, not a copy of it.
+	real *database.Store
+}
+
+func newMemStore(utxo map[bc.Hash]*storage.UtxoEntry) *memStore {
+	db := dbm.NewMemDB()
+	view := state.NewUtxoViewpoint()
+	for h, e := range utxo {
+		cp := *e
+		view.Entries[h] = &cp
+	}
+	batch := db.NewBatch()
+	if err := database.SaveUtxoView(batch, view); err != nil {
+		panic(err)
+	}
+	batch.Write()
+	return &memStore{utxo: utxo, real: database.NewStore(db)}
 }
 
 var errInjected = errors.New("verif: injected store failure")
@@ -63,6 +84,9 @@ func (s *memStore) GetTransactionsUtxo(view *state.UtxoViewpoint, txs []*bc.Tx) 
 	if s.failNext {
 		s.failNext = false
 		return errInjected
+	}
+	if s.real != nil {
+		return s.real.GetTransactionsUtxo(view, txs)
 	}
 	for _, tx := range txs {
 		for _, prevout := range tx.SpentOutputIDs {
